@@ -1,3 +1,263 @@
-use serde_json::{json, Value as J};
-pub fn run(_req: &J) -> J { json!({"error":"todo"}) }
-pub fn run_bytes(_req: &J) -> J { json!({"error":"todo"}) }
+// Bytecode modes.
+//  bytecode: interpret a program, compile, load, run in a FRESH interpreter, step both sides.
+//  bytes   : apply mutations to an emitted file and report what the loader / constant decoder /
+//            run_program do with each (reject / accept / panic / oom).  Allocation failures under the
+//            worker's address-space limit become panics through the alloc-error hook (main.rs).
+use crate::project::{kind_of, project};
+use crate::session::{parse_cached, project_store};
+use mech_core::*;
+use mech_interpreter::*;
+use serde_json::{json, Map, Value as J};
+use std::panic::{catch_unwind, AssertUnwindSafe};
+
+fn hex(b: &[u8]) -> String {
+  let mut s = String::with_capacity(b.len() * 2);
+  for x in b {
+    s.push_str(&format!("{:02x}", x));
+  }
+  s
+}
+fn unhex(s: &str) -> Vec<u8> {
+  (0..s.len() / 2).map(|i| u8::from_str_radix(&s[2 * i..2 * i + 2], 16).unwrap_or(0)).collect()
+}
+
+fn panic_msg(p: &Box<dyn std::any::Any + Send>) -> String {
+  p.downcast_ref::<&'static str>()
+    .map(|s| s.to_string())
+    .or_else(|| p.downcast_ref::<String>().cloned())
+    .unwrap_or_else(|| "non-string panic".to_string())
+}
+
+fn outcome_val(r: std::thread::Result<MResult<Value>>) -> J {
+  match r {
+    Ok(Ok(v)) => json!({"r":"ok","v":project(&v),"k":kind_of(&v)}),
+    Ok(Err(e)) => json!({"r":"err","class":e.kind_name()}),
+    Err(p) => json!({"r":"panic","msg":panic_msg(&p)}),
+  }
+}
+
+fn header_json(h: &ByteCodeHeader) -> J {
+  json!({
+    "version": h.version, "mech_ver": h.mech_ver, "flags": h.flags, "reg_count": h.reg_count, "instr_count": h.instr_count,
+    "feature_count": h.feature_count, "feature_off": h.feature_off.to_string(), "types_count": h.types_count, "types_off": h.types_off.to_string(),
+    "const_count": h.const_count, "const_tbl_off": h.const_tbl_off.to_string(), "const_tbl_len": h.const_tbl_len.to_string(),
+    "const_blob_off": h.const_blob_off.to_string(), "const_blob_len": h.const_blob_len.to_string(),
+    "symbols_len": h.symbols_len.to_string(), "symbols_off": h.symbols_off.to_string(),
+    "instr_off": h.instr_off.to_string(), "instr_len": h.instr_len.to_string(),
+    "dict_off": h.dict_off.to_string(), "dict_len": h.dict_len.to_string(),
+  })
+}
+
+pub fn run(req: &J) -> J {
+  let stmts = req.get("stmts").and_then(|s| s.as_array()).cloned().unwrap_or_default();
+  let want_bytes = req.get("want_bytes").and_then(|b| b.as_bool()).unwrap_or(false);
+  let mut out = Map::new();
+  let mut intrp = Interpreter::new(0);
+  let mut last = json!({"r":"none"});
+  for st in stmts.iter() {
+    let text = st.as_str().unwrap_or("");
+    match parse_cached(text) {
+      Ok(tree) => {
+        last = outcome_val(catch_unwind(AssertUnwindSafe(|| intrp.interpret(&tree))));
+        if last["r"] != "ok" {
+          break;
+        }
+      }
+      Err(e) => {
+        last = json!({"r":"noparse","p":e});
+        break;
+      }
+    }
+  }
+  out.insert("interp".into(), last.clone());
+  if last["r"] != "ok" {
+    return J::Object(out);
+  }
+  let (s0, _) = project_store(&intrp, None);
+  out.insert("store".into(), s0);
+  // plan as text (first line of each step) for register/operand attribution
+  {
+    let plan = intrp.plan();
+    let plan = plan.borrow();
+    let names: Vec<String> = plan.iter().map(|f| f.to_string().lines().next().unwrap_or("").to_string()).collect();
+    out.insert("plan".into(), json!(names));
+  }
+  let comp = catch_unwind(AssertUnwindSafe(|| intrp.compile()));
+  let bytes = match comp {
+    Ok(Ok(b)) => b,
+    Ok(Err(e)) => {
+      out.insert("compile".into(), json!({"r":"err","class":e.kind_name()}));
+      return J::Object(out);
+    }
+    Err(p) => {
+      out.insert("compile".into(), json!({"r":"panic","msg":panic_msg(&p)}));
+      return J::Object(out);
+    }
+  };
+  out.insert("compile".into(), json!({"r":"ok","len":bytes.len()}));
+  if want_bytes {
+    out.insert("hex".into(), json!(hex(&bytes)));
+  }
+  let loaded = catch_unwind(AssertUnwindSafe(|| ParsedProgram::from_bytes(&bytes)));
+  let prog = match loaded {
+    Ok(Ok(p)) => p,
+    Ok(Err(e)) => {
+      out.insert("load".into(), json!({"r":"err","class":e.kind_name()}));
+      return J::Object(out);
+    }
+    Err(p) => {
+      out.insert("load".into(), json!({"r":"panic","msg":panic_msg(&p)}));
+      return J::Object(out);
+    }
+  };
+  let reenc = catch_unwind(AssertUnwindSafe(|| prog.to_bytes()));
+  let reenc_j = match reenc {
+    Ok(Ok(b)) => json!({"r":"ok","eq": b == bytes, "len": b.len()}),
+    Ok(Err(e)) => json!({"r":"err","class":e.kind_name()}),
+    Err(p) => json!({"r":"panic","msg":panic_msg(&p)}),
+  };
+  let consts = catch_unwind(AssertUnwindSafe(|| prog.decode_const_entries()));
+  let consts_j = match consts {
+    Ok(Ok(vs)) => json!({"r":"ok","v": vs.iter().map(project).collect::<Vec<_>>()}),
+    Ok(Err(e)) => json!({"r":"err","class":e.kind_name()}),
+    Err(p) => json!({"r":"panic","msg":panic_msg(&p)}),
+  };
+  let instrs: Vec<String> = prog.instrs.iter().map(|i| format!("{:?}", i)).collect();
+  out.insert(
+    "load".into(),
+    json!({"r":"ok","header":header_json(&prog.header),"nconst":prog.const_entries.len(),"instrs":instrs,
+           "nsymbols":prog.symbols.len(),"reenc":reenc_j,"consts":consts_j}),
+  );
+  // run in a FRESH interpreter
+  let mut fresh = Interpreter::new(1);
+  let runr = outcome_val(catch_unwind(AssertUnwindSafe(|| fresh.run_program(&prog))));
+  out.insert("run".into(), runr.clone());
+  // re-evaluate both sides once
+  let so = outcome_val(catch_unwind(AssertUnwindSafe(|| intrp.step(0, 1))));
+  out.insert("step_orig".into(), so);
+  if runr["r"] == "ok" {
+    let sl = outcome_val(catch_unwind(AssertUnwindSafe(|| fresh.step(0, 1))));
+    out.insert("step_loaded".into(), sl);
+  }
+  J::Object(out)
+}
+
+fn crc_fix(b: &mut Vec<u8>) {
+  if b.len() >= 4 {
+    let n = b.len() - 4;
+    let c = crc32fast::hash(&b[..n]);
+    b[n..].copy_from_slice(&c.to_le_bytes());
+  }
+}
+
+fn apply(base: &[u8], m: &J) -> Vec<u8> {
+  let kind = m.get("k").and_then(|k| k.as_str()).unwrap_or("");
+  let mut b = base.to_vec();
+  match kind {
+    "trunc" => {
+      let n = m["n"].as_u64().unwrap_or(0) as usize;
+      b.truncate(n.min(b.len()));
+    }
+    "flip" => {
+      let bit = m["bit"].as_u64().unwrap_or(0) as usize;
+      if bit / 8 < b.len() {
+        b[bit / 8] ^= 1 << (bit % 8);
+      }
+    }
+    "burst" => {
+      // xor `w` consecutive bits starting at bit `bit` with pattern `pat` (first and last bit forced to 1)
+      let bit = m["bit"].as_u64().unwrap_or(0) as usize;
+      let w = m["w"].as_u64().unwrap_or(1) as usize;
+      let pat = m["pat"].as_u64().unwrap_or(u64::MAX);
+      for i in 0..w {
+        let on = i == 0 || i == w - 1 || (pat >> (i % 64)) & 1 == 1;
+        let p = bit + i;
+        if on && p / 8 < b.len() {
+          b[p / 8] ^= 1 << (p % 8);
+        }
+      }
+    }
+    "set" => {
+      // overwrite bytes at `off` with hex `bytes`; optional crc recompute
+      let off = m["off"].as_u64().unwrap_or(0) as usize;
+      let nb = unhex(m["bytes"].as_str().unwrap_or(""));
+      for (i, x) in nb.iter().enumerate() {
+        if off + i < b.len() {
+          b[off + i] = *x;
+        }
+      }
+    }
+    "raw" => {
+      b = unhex(m["hex"].as_str().unwrap_or(""));
+    }
+    "append" => {
+      b.extend(unhex(m["bytes"].as_str().unwrap_or("")));
+    }
+    _ => {}
+  }
+  if m.get("fixcrc").and_then(|x| x.as_bool()).unwrap_or(false) {
+    crc_fix(&mut b);
+  }
+  b
+}
+
+fn classify_panic(msg: &str) -> &'static str {
+  if msg.contains("verif-alloc-error") || msg.contains("capacity overflow") || msg.contains("memory allocation") {
+    "oom"
+  } else {
+    "panic"
+  }
+}
+
+pub fn run_bytes(req: &J) -> J {
+  let base = unhex(req.get("hex").and_then(|h| h.as_str()).unwrap_or(""));
+  let muts = req.get("muts").and_then(|m| m.as_array()).cloned().unwrap_or_default();
+  let run_accepted = req.get("run").and_then(|b| b.as_bool()).unwrap_or(true);
+  let mut res: Vec<J> = Vec::with_capacity(muts.len());
+  for m in muts.iter() {
+    let b = apply(&base, m);
+    let same = b == base;
+    let l = catch_unwind(AssertUnwindSafe(|| ParsedProgram::from_bytes(&b)));
+    match l {
+      Ok(Err(e)) => res.push(json!({"o":"reject","same":same,"class":e.kind_name()})),
+      Err(p) => {
+        let msg = panic_msg(&p);
+        res.push(json!({"o":classify_panic(&msg),"stage":"load","same":same,"msg":msg}))
+      }
+      Ok(Ok(prog)) => {
+        let mut o = json!({"o":"accept","same":same});
+        let d = catch_unwind(AssertUnwindSafe(|| prog.decode_const_entries()));
+        match d {
+          Ok(Ok(_)) => o["decode"] = json!("ok"),
+          Ok(Err(_)) => o["decode"] = json!("err"),
+          Err(p) => {
+            let msg = panic_msg(&p);
+            o["decode"] = json!(classify_panic(&msg));
+            o["msg"] = json!(msg);
+          }
+        }
+        let re = catch_unwind(AssertUnwindSafe(|| prog.to_bytes()));
+        match re {
+          Ok(Ok(rb)) => o["reenc_eq"] = json!(rb == b),
+          Ok(Err(_)) => o["reenc_eq"] = json!("err"),
+          Err(_) => o["reenc_eq"] = json!("panic"),
+        }
+        if run_accepted {
+          let mut fresh = Interpreter::new(1);
+          let r = catch_unwind(AssertUnwindSafe(|| fresh.run_program(&prog)));
+          match r {
+            Ok(Ok(_)) => o["run"] = json!("ok"),
+            Ok(Err(_)) => o["run"] = json!("err"),
+            Err(p) => {
+              let msg = panic_msg(&p);
+              o["run"] = json!(classify_panic(&msg));
+              o["msg"] = json!(msg);
+            }
+          }
+        }
+        res.push(o);
+      }
+    }
+  }
+  json!({"res": res})
+}
